@@ -148,8 +148,7 @@ def writeP (p : PF) (s : Spec) (raw : Nat) : Option PF := do
 
 /-- `pf_c_string_padding` (conversions `s`) -/
 def writeS (p : PF) (s : Spec) (str : Bytes) : Option PF := do
-  let t := cstrlen str
-  let t := match s.prec with | none => t | some n => t.take n
+  let t := strArg s.prec str          -- strlen, or the bounded scan when a precision is given
   let diff := (max s.width t.length) - t.length
   if s.flags.dash then
     let p ← PF.concat p t
@@ -218,7 +217,7 @@ def floatPlan (s : Spec) (bits : Nat) : List Emit × Misc :=
 def addPadding (p : PF) (s : Spec) (written : Nat) (md : Misc) : Option PF :=
   let start := p.length - written
   let diff := s.width - written
-  let isIntWithPrec := "diouxX".contains s.conv ∧ s.prec.isSome
+  let isIntWithPrec := isIntConv s.conv ∧ s.prec.isSome
   let ignoreZero := isIntWithPrec ∨ md.nanOrInf
   if s.flags.dash then PF.pad p 32 diff
   else if s.flags.zero ∧ ¬ ignoreZero then
@@ -240,7 +239,7 @@ def convert (p : PF) (s : Spec) (arg : Option Arg) : Option PF := do
     | 'u', some (.int raw) => do let p ← writeDigits p s 10 false (noDigits s (unsignedArg s.len raw = 0)) (unsignedArg s.len raw); pure (p, {}, false)
     | 'p', some (.int raw) => do let p ← writeP p s raw; pure (p, {}, false)
     | c, some (.dbl bits) =>
-      if "fFeEgG".contains c then do
+      if isFloatConv c then do
         let (plan, md) := floatPlan s bits
         let p ← PF.writeFloat p plan
         pure (p, md, false)
@@ -250,16 +249,21 @@ def convert (p : PF) (s : Spec) (arg : Option Arg) : Option PF := do
   let written := if padded then 0 else p.length - start
   if written < s.width then addPadding p s written md else some p
 
+/-- the kind of argument a conversion fetches with `va_arg` -/
+def argFits (c : Char) : Arg → Bool
+  | .int _ => c = 'c' || c = 'd' || c = 'i' || c = 'o' || c = 'x' || c = 'X' || c = 'u' || c = 'p'
+  | .str _ => c = 's'
+  | .dbl _ => isFloatConv c
+
 /-- `pf_vsnprintf_consuming`: `none` = a write outside the destination, `some none` = bad format/arguments -/
 def vsnprintf (fuel : Nat) (p : PF) (fmt : Bytes) (args : List Arg) : Option (Option PF) :=
   match fuel with
   | 0 => some none
   | fuel + 1 =>
-    let (lit, rest) := splitLiteral fmt
-    match PF.concat p lit with
+    match PF.concat p (splitLiteral fmt).1 with
     | none => none
     | some p =>
-      match rest with
+      match (splitLiteral fmt).2 with
       | [] => some (some p)
       | _ :: afterPct =>
         match scanSpec afterPct with
@@ -275,12 +279,7 @@ def vsnprintf (fuel : Nat) (p : PF) (fmt : Bytes) (args : List Arg) : Option (Op
             else match args with
               | [] => some none
               | a :: args =>
-                let ok : Bool := match s.conv, a with
-                  | 'c', .int _ | 'd', .int _ | 'i', .int _ | 'o', .int _ | 'x', .int _ | 'X', .int _
-                  | 'u', .int _ | 'p', .int _ | 's', .str _ => true
-                  | c, .dbl _ => "fFeEgG".contains c
-                  | _, _ => false
-                if !ok then some none else
+                if !argFits s.conv a then some none else
                 match convert p s (some a) with
                 | none => none
                 | some p => vsnprintf fuel p rest args
@@ -292,25 +291,39 @@ def finish (p : PF) : Option PF :=
     pure { p with data := d }
   else some p
 
-/-- the specification's output for the same format and arguments -/
-def specFormat (fuel : Nat) (fmt : Bytes) (args : List Arg) : Option Bytes :=
+/-- the output for a format and its arguments when one conversion's text is given by `ct`
+(same scanning and argument consumption as the formatter) -/
+def genFormat (ct : Spec → Option Arg → Option Bytes) (fuel : Nat) (fmt : Bytes) (args : List Arg) : Option Bytes :=
   match fuel with
   | 0 => none
   | fuel + 1 =>
-    let (lit, rest) := splitLiteral fmt
-    match rest with
-    | [] => some lit
-    | _ :: afterPct => do
-      let (raw, rest) ← scanSpec afterPct
-      let (s, args) ← resolve raw args
-      if s.conv = '%' then
-        let tail ← specFormat fuel rest args
-        pure (lit ++ [37] ++ tail)
-      else match args with
-        | [] => none
-        | a :: args => do
-          let t ← formatOne s a
-          let tail ← specFormat fuel rest args
-          pure (lit ++ t ++ tail)
+    match (splitLiteral fmt).2 with
+    | [] => some (splitLiteral fmt).1
+    | _ :: afterPct =>
+      match scanSpec afterPct with
+      | none => none
+      | some (raw, rest) =>
+        match resolve raw args with
+        | none => none
+        | some (s, args) =>
+          if s.conv = '%' then
+            match ct s none, genFormat ct fuel rest args with
+            | some t, some tail => some ((splitLiteral fmt).1 ++ t ++ tail)
+            | _, _ => none
+          else match args with
+            | [] => none
+            | a :: args =>
+              if !argFits s.conv a then none else
+              match ct s (some a), genFormat ct fuel rest args with
+              | some t, some tail => some ((splitLiteral fmt).1 ++ t ++ tail)
+              | _, _ => none
+
+/-- one conversion according to the specification -/
+def specConv (s : Spec) : Option Arg → Option Bytes
+  | none => if s.conv = '%' then some [37] else none
+  | some a => formatOne s a
+
+/-- the specification's output for a format and its arguments -/
+def specFormat (fuel : Nat) (fmt : Bytes) (args : List Arg) : Option Bytes := genFormat specConv fuel fmt args
 
 end Gpc.Printf
